@@ -11,8 +11,13 @@
 _Bool nondet_bool(void);
 int nondet_int(void);
 #define B64_MAXLEN 0x5ffffff0
+/* units may bound the decoded length they consider (a stated bound, e.g. oct keys of at most 16 MiB) */
+#ifndef B64_DEC_MAX
+#define B64_DEC_MAX B64_MAXLEN
+#endif
 #ifdef VERIF_B64_TRACK
 extern const char *g_jwk_tracked_str; extern const void *g_jwk_tracked_bin;
+extern const char *g_dec_last_src; extern const void *g_dec_last_res; extern int g_dec_last_len;
 #endif
 
 void *jwt_base64uri_decode(const char *src, int *ret_len)
@@ -27,14 +32,15 @@ void *jwt_base64uri_decode(const char *src, int *ret_len)
 		return NULL;
 	}
 	int n = nondet_int();
-	__CPROVER_assume(n >= 1 && n <= B64_MAXLEN);
+	__CPROVER_assume(n >= 1 && n <= B64_DEC_MAX);
 	void *p = malloc((size_t)n + 1);
 	__CPROVER_assume(p != NULL);
 	*ret_len = n;
 #ifdef VERIF_B64_TRACK
-	/* ghost: remember the decoding of the tracked JWK member's text */
+	/* ghost: remember the decoding of the tracked JWK member's text, and the last decoding */
 	if (src == g_jwk_tracked_str)
 		g_jwk_tracked_bin = p;
+	g_dec_last_src = src; g_dec_last_res = p; g_dec_last_len = n;
 #endif
 	return p;
 }
